@@ -221,7 +221,7 @@ PROPS = {
         assumptions=["H collision-free; cache entries sorted (harness canonical form)"],
     ),
     "C16": dict(
-        families=[dict(name="hist", args=["-specs", "7"]), dict(name="tree", args=["-specs", "7"]), dict(name="effects", args=["-specs", "7"])],
+        families=[dict(name="hist", args=["-specs", "7"]), dict(name="tree", args=["-specs", "7"]), dict(name="effects", args=["-specs", "7"]), dict(name="pipe", args=["-specs", "7", "-n", "14"])],
         level_text="Theorems C16_function (the recorded checksum equals merkle(path, norec, logical content), a pure function "
                    "that mentions neither strategy nor cache nor old manifest), C16_skip, C16_injective, "
                    "C16_listing_order, C16_dedup. Tied to the code by recomputing, inside Coq with the Gallina BLAKE3 "
